@@ -12,12 +12,31 @@ NOT_APPLICABLE = {}
 HOOK_COMMITS = []
 
 CHECKS = {
+    "C07": {
+        "run": "^TestC07_",
+        "level": "fault_enumeration",
+        "rule": ("cases = (row or chain, params, variant, legal script, fault plan) where a fault plan injects, at one (enumerated) or two (rapid) user-callback positions "
+                 "- operator callbacks, the source's subscribe function, the final observer's Next/Error/Complete - at a chosen invocation index, a panic(error), "
+                 "panic(string), panic(non-error value) or a returned error. Invocation indices come from a fault-free dry run, so every injected fault is reachable. "
+                 "Non-trivial = invocation index >= 1, or the position is the subscribe function or an observer callback, or a chain/pair; distinct by descriptor hash."),
+        "quick": {"rapid": 400, "timeout": 300, "shards": 4},
+        "thorough": {"rapid": 6000, "timeout": 3000, "shards": 16},
+        "assumptions": COMMON_ASSUMPTIONS,
+        "technique": "fault injection by enumeration (position x invocation index x kind) + rapid fault pairs in chains, judged by a fault-aware reference model",
+        "level_text": ("Fault enumeration. For every catalogue row with user callbacks (and the source / observer callback positions) every reachable invocation index is "
+                       "faulted once, exhaustively over scripts of length <= 3 (quick) / 4 (thorough); rapid adds chains with one or two faults. Oracle: no panic escapes "
+                       "Subscribe; the subscriber sees the values the model prescribes before the fault, then exactly one Error whose cause is the injected fault, then "
+                       "nothing; faults in the observer's own Error/Complete callbacks reach OnUnhandledError; afterwards a fresh subscription to the same observable "
+                       "behaves like an unfaulted run (nothing left locked or closed)."),
+        "level_note": ("Two listed findings (known_findings.json) are reported as KNOWN-FINDING and excluded from the verdict by (operator, failure class). "
+                       "Teardown panics belong to C03; faults in asynchronous rows to C05/C16 harnesses."),
+    },
     "C09": {
         "run": "^TestC09_",
         "rule": ("cases = (row or chain, params, variant, script 1..n with ending, upstream marker operator {none, ContextWithValue, ContextMap}, dynamic kind of the "
                  "subscription context {WithValue, WithCancel, WithDeadline, custom type}). Non-trivial = the case exercises a terminal path (error/complete ending) "
                  "or a row that stores items (SkipLast, TakeLast, Min/Max, Reduce) - not just pass-through Next; distinct by descriptor hash."),
-        "quick": {"rapid": 400, "timeout": 600, "shards": 4},
+        "quick": {"rapid": 400, "timeout": 300, "shards": 4},
         "thorough": {"rapid": 6000, "timeout": 3000, "shards": 16},
         "assumptions": COMMON_ASSUMPTIONS,
         "technique": "property-based testing: marker propagation invariants over enumerated rows and rapid chains (subscription marker, upstream marker, per-item provenance, non-nil)",
@@ -35,7 +54,7 @@ CHECKS = {
                  "driven source; 2-4 concurrent subscriptions; one operator value applied to 2-3 sources and subscribed in every listed order. Non-trivial = the "
                  "row/chain keeps per-subscription state (index, accumulator, buffer, seen-set, counter) or re-subscribes, or an operator value is applied to "
                  ">= 2 sources; distinct by descriptor hash."),
-        "quick": {"rapid": 400, "timeout": 600, "shards": 4},
+        "quick": {"rapid": 400, "timeout": 300, "shards": 4},
         "thorough": {"rapid": 6000, "timeout": 3000, "shards": 16},
         "assumptions": COMMON_ASSUMPTIONS,
         "technique": "property-based testing: differential (n-th / concurrent / co-applied subscription vs first subscription of a fresh pipeline) + model-derived source-subscription counts",
@@ -51,7 +70,7 @@ CHECKS = {
                  "observer style, subscriber placement) enumerated exhaustively up to the stated word length, plus rapid-generated concurrent cases "
                  "(2-4 goroutines each playing a word into one safe observable or subject, 5 repetitions each, slow Next callback). Non-trivial = the word "
                  "has at least one notification after its first terminal, or >= 2 producers with a terminal among their words; distinct by descriptor hash."),
-        "quick": {"rapid": 300, "timeout": 600, "shards": 4},
+        "quick": {"rapid": 300, "timeout": 300, "shards": 4},
         "thorough": {"rapid": 5000, "timeout": 3000, "shards": 16},
         "assumptions": COMMON_ASSUMPTIONS,
         "technique": "property-based testing: exhaustive word enumeration + rapid-generated concurrent producers, judged by a grammar automaton and drop-hook accounting",
@@ -69,7 +88,7 @@ CHECKS = {
                  "inside the small scope stated in 'enumerated_scope', then drawn by rapid (longer scripts, wider values, random chains, "
                  "Pipe/PipeN/PipeOpN arities 1..25). A case is non-trivial when the input has >= 1 value, or it is a chain of >= 2 stages; "
                  "distinct = distinct (row/chain, variant, params, script) descriptor, counted by hash set."),
-        "quick": {"rapid": 300, "timeout": 600, "shards": 4},
+        "quick": {"rapid": 300, "timeout": 300, "shards": 4},
         "thorough": {"rapid": 4000, "timeout": 3000, "shards": 16},
         "assumptions": COMMON_ASSUMPTIONS,
         "technique": "property-based testing: bounded-exhaustive enumeration + rapid generation against a reference model; variant and composition differentials",
